@@ -215,6 +215,8 @@ class DTCFormatIdentifier(IntEnum):
     SAE_J1939_73 = 0x02
     # ISO11992-4DTCFormat
     ISO_11992_4 = 0x03
+    # SAEJ2012-DADTCFormat04
+    SAE_J2012_DA_04 = 0x04
 
 
 # This dictionary maps UDS services to the echo length of their responses.
